@@ -2,6 +2,7 @@
 Helper lemmas for C17 (see Props/C17.lean for the property theorems).
 -/
 import CobaVerif.Model.C17
+import CobaVerif.Generated.C17Ops
 import Mathlib.Tactic.Linarith
 import Mathlib.Algebra.Order.Field.Rat
 import Mathlib.Data.List.Sort
@@ -5929,5 +5930,338 @@ theorem index_eq_spec_aux (cfg : Cfg) (t : Table) (indx : List Nat) (hwf : index
       R'.map (List.map Cell.key) = (indexS (idxPositions t.columns (effIndex cfg t indx)) R).map (List.map Cell.key) :=
   let ⟨t', _, R, R', h⟩ := index_spec' cfg t indx hwf
   ⟨t', R, R', h.1, h.2.1, h.2.2.1, h.2.2.2.2.2.2.2.2.2.2.2⟩
+
+/-! ## Phase 4: several live objects with their own `_lohis` cache -/
+
+/-- a truthy cache holds exactly what `_calc_lohis` would compute now -/
+def Coh (cfg : Cfg) (t : Table) (c : Option Lohis) : Prop :=
+  ∀ p l, c = some (p :: l) → t.calcLohis cfg = .ok (p :: l)
+
+theorem coh_none (cfg : Cfg) (t : Table) : Coh cfg t Option.none := by intro p l h; cases h
+theorem coh_reset (cfg : Cfg) (t : Table) (c : Option Lohis) : Coh cfg t (resetCache c) := by
+  intro p l h
+  cases c with
+  | none => cases h
+  | some x => cases x <;> simp [resetCache] at h
+theorem coh_calc (cfg : Cfg) (t : Table) (l : Lohis) (h : t.calcLohis cfg = .ok l) : Coh cfg t (some l) := by
+  intro p l' e; cases e; exact h
+
+theorem effLohis_of_coh (cfg : Cfg) (t : Table) (c : Option Lohis) (h : Coh cfg t c) :
+    effLohis cfg t c = t.calcLohis cfg := by
+  cases c with
+  | none => rfl
+  | some x =>
+    cases x with
+    | nil => rfl
+    | cons p l => simp only [effLohis]; exact (h p l rfl).symm
+
+theorem pwhereWith_eq (cfg : Cfg) (t : Table) (l : Lohis) (cmp : Option Op) (kws : List (Nat × Arg))
+    (h : t.calcLohis cfg = .ok l) : t.pwhere cfg Option.none cmp kws = t.pwhereWith cfg l cmp kws := by
+  simp only [Table.pwhere, Table.pwhereWith, h]; rfl
+
+theorem groupbyWith_eq (cfg : Cfg) (t : Table) (l : Lohis) (level : Nat) (select : Select)
+    (h : t.calcLohis cfg = .ok l) : t.groupby cfg level select = t.groupbyWith l level select := by
+  simp only [Table.groupby, Table.groupbyWith, h]
+
+theorem calc_ok_of_inv (cfg : Cfg) (t : Table) (hinv : Inv t) : ∃ l, t.calcLohis cfg = .ok l := by
+  by_cases hne : t.indexes = []
+  · exact ⟨[], by simp [Table.calcLohis, hne]⟩
+  · obtain ⟨l, h, _⟩ := lohis_correct' cfg t (tableN t) hinv.ok hinv.idx hne
+    exact ⟨l, h⟩
+
+theorem insertRaw_empty (cfg : Cfg) (t : Table) (d : InsertData) (h : d.isEmpty = true) : t.insertRaw cfg d = .ok t := by
+  cases d <;> rename_i l <;> cases l <;> simp_all [InsertData.isEmpty, Table.insertRaw]
+
+theorem indexC_spec (cfg : Cfg) (t t' : Table) (c : Option Lohis) (indx : List Nat)
+    (h : t.index cfg indx = .ok t') (hc : Coh cfg t c) (hl : ∃ l, t'.calcLohis cfg = .ok l) :
+    ∃ c', t.indexC cfg c indx = .ok (t', c') ∧ Coh cfg t' c' := by
+  unfold Table.indexC
+  unfold Table.index at h
+  split_ifs at h ⊢ with h1 h2 h3
+  · cases h; exact ⟨c, rfl, hc⟩
+  · cases h; exact ⟨c, rfl, hc⟩
+  · cases h; exact ⟨c, rfl, hc⟩
+  · have h' : t.index cfg indx = .ok t' := by
+      unfold Table.index; simp only [h1, h2, h3, if_false]; exact h
+    obtain ⟨l, hl⟩ := hl
+    simp only [h', hl]
+    exact ⟨some l, rfl, coh_calc cfg t' l hl⟩
+
+theorem indexC_error (cfg : Cfg) (t : Table) (c : Option Lohis) (indx : List Nat) (e : Err)
+    (hi : t.index cfg indx = .error e) : t.indexC cfg c indx = .error e := by
+  unfold Table.indexC
+  have hi0 := hi
+  unfold Table.index at hi
+  split_ifs at hi ⊢ with h1 h2 h3
+  simp only [hi0]
+
+theorem insertC_spec (cfg : Cfg) (t t' : Table) (c : Option Lohis) (d : InsertData)
+    (h : t.insert cfg d = .ok t') (hc : Coh cfg t c) (hl : ∃ l, t'.calcLohis cfg = .ok l) :
+    ∃ c', t.insertC cfg c d = .ok (t', c') ∧ Coh cfg t' c' := by
+  unfold Table.insertC
+  unfold Table.insert at h
+  cases hr : t.insertRaw cfg d with
+  | error e => simp [hr] at h
+  | ok t1 =>
+    simp only [hr] at h ⊢
+    split_ifs at h ⊢ with hif
+    · split at h
+      · rename_i ho; cases h; exact ⟨_, rfl, coh_reset cfg _ c⟩
+      · rename_i ho; cases h; exact ⟨_, rfl, coh_reset cfg _ c⟩
+      · rename_i ho
+        split at h
+        · rename_i t2 hi; cases h
+          obtain ⟨c', e, hc'⟩ := indexC_spec cfg _ t' (resetCache c) _ hi (coh_reset cfg _ c) hl
+          simp only [e]; exact ⟨c', rfl, hc'⟩
+        · rename_i hi; cases h
+          simp only [indexC_error cfg _ (resetCache c) _ _ hi]
+          exact ⟨_, rfl, coh_reset cfg _ c⟩
+        · cases h
+    · rename_i hd
+      cases h
+      have := insertRaw_empty cfg t d hd
+      rw [this] at hr; cases hr
+      exact ⟨c, rfl, hc⟩
+    · cases h; exact ⟨_, rfl, coh_reset cfg _ c⟩
+
+/-- what is claimed of a live object: while no other object has mutated the shared lists since it was
+made, it satisfies the table invariant and its memoised `_lohis` is what `_calc_lohis` gives now -/
+def Good (cfg : Cfg) (o : CObj) : Prop := o.fresh = true → Inv o.t ∧ Coh cfg o.t o.cache
+
+def AllGood (cfg : Cfg) (os : List (Option CObj)) : Prop := ∀ o, some o ∈ os → Good cfg o
+
+theorem target_mem (os : List (Option CObj)) (i : Nat) (o : CObj) (h : (os[i]?).bind id = some o) : some o ∈ os := by
+  cases hh : os[i]? with
+  | none => simp [hh] at h
+  | some x =>
+    simp [hh] at h; subst h
+    exact List.mem_of_getElem? hh
+
+theorem allGood_append (cfg : Cfg) (os : List (Option CObj)) (x : Option CObj) (h : AllGood cfg os)
+    (hx : ∀ o, x = some o → Good cfg o) : AllGood cfg (os ++ [x]) := by
+  intro o ho
+  rcases List.mem_append.1 ho with h1 | h1
+  · exact h o h1
+  · simp at h1; exact hx o h1.symm
+
+theorem allGood_set (cfg : Cfg) (os : List (Option CObj)) (i : Nat) (x : Option CObj) (h : AllGood cfg os)
+    (hx : ∀ o, x = some o → Good cfg o) : AllGood cfg (setAt os i x) := by
+  intro o ho
+  rcases List.mem_or_eq_of_mem_set ho with h1 | h1
+  · exact h o h1
+  · exact hx o h1.symm
+
+theorem allGood_share (cfg : Cfg) (d : List (Nat × List Cell)) (os : List (Option CObj)) : AllGood cfg (shareC d os) := by
+  intro o ho hf
+  simp only [shareC, List.mem_map] at ho
+  obtain ⟨x, _, hx⟩ := ho
+  cases x with
+  | none => simp at hx
+  | some u => simp at hx; subst hx; simp at hf
+
+theorem good_stale (cfg : Cfg) (o : CObj) (h : o.fresh = false) : Good cfg o := by
+  intro hf; rw [h] at hf; cases hf
+
+/-- **the invariant of the machine with caches**: every step keeps every fresh live object in a state
+that satisfies the table invariant with a coherent `_lohis` cache (insert / index through one object make
+the OTHER objects stale: nothing is claimed of those — findings C17-F19/F20) -/
+theorem multi_inv_step' (cfg : Cfg) (hfix : cfg.resortInsert = true) (os : List (Option CObj)) (op : TOp)
+    (hg : AllGood cfg os) (hok : opOKC cfg os op = true) : AllGood cfg (stepC cfg os op).1 := by
+  cases op with
+  | skip creates =>
+    simp only [stepC]; split
+    · exact allGood_append cfg os _ hg (by intro o h; cases h)
+    · exact hg
+  | peek i => simp only [stepC]; split <;> exact hg
+  | copy i =>
+    simp only [stepC]; split
+    · exact allGood_append cfg os _ hg (by intro o h; cases h)
+    · rename_i o ho
+      exact allGood_append cfg os _ hg (by intro o' h; cases h; exact hg o (target_mem os i o ho))
+  | groupby i level select =>
+    simp only [stepC]; split
+    · exact hg
+    · rename_i o ho
+      have hgo := hg o (target_mem os i o ho)
+      split
+      · exact hg
+      · rename_i l hl
+        have : Good cfg { o with cache := some l } := by
+          intro hf
+          obtain ⟨hi, hc⟩ := hgo hf
+          rw [effLohis_of_coh cfg o.t o.cache hc] at hl
+          exact ⟨hi, coh_calc cfg o.t l hl⟩
+        split <;> exact allGood_set cfg os i _ hg (by intro o' h; cases h; exact this)
+  | insert i d =>
+    simp only [stepC]; split
+    · exact hg
+    · rename_i o ho
+      have hgo := hg o (target_mem os i o ho)
+      split
+      · rename_i t' c' he
+        refine allGood_set cfg _ i _ (allGood_share cfg _ os) ?_
+        intro o' h; cases h
+        intro hf
+        simp only at hf
+        obtain ⟨hi, hc⟩ := hgo hf
+        have hop : opOK cfg o.t (.insert d) = true := by
+          simp only [opOKC, ho, hf] at hok; simpa using hok
+        obtain ⟨t1, e1, hi1⟩ := inv_step' cfg hfix o.t (.insert d) hi hop
+        obtain ⟨c1, e2, hc1⟩ := insertC_spec cfg o.t t1 o.cache d e1 hc (calc_ok_of_inv cfg t1 hi1)
+        rw [e2] at he; cases he
+        exact ⟨hi1, hc1⟩
+      · exact allGood_set cfg os i _ hg (by intro o' h; cases h)
+  | index i cols =>
+    simp only [stepC]; split
+    · exact hg
+    · rename_i o ho
+      have hgo := hg o (target_mem os i o ho)
+      split
+      · rename_i t' c' he
+        refine allGood_set cfg _ i _ (allGood_share cfg _ os) ?_
+        intro o' h; cases h
+        intro hf
+        simp only at hf
+        obtain ⟨hi, hc⟩ := hgo hf
+        have hop : opOK cfg o.t (.index cols) = true := by
+          simp only [opOKC, ho, hf] at hok; simpa using hok
+        obtain ⟨t1, e1, hi1⟩ := inv_step' cfg hfix o.t (.index cols) hi hop
+        obtain ⟨c1, e2, hc1⟩ := indexC_spec cfg o.t t1 o.cache cols e1 hc (calc_ok_of_inv cfg t1 hi1)
+        rw [e2] at he; cases he
+        exact ⟨hi1, hc1⟩
+      · exact allGood_set cfg os i _ hg (by intro o' h; cases h)
+  | whr i pred cmp kws =>
+    simp only [stepC]; split
+    · exact allGood_append cfg os _ hg (by intro o h; cases h)
+    · rename_i o ho
+      have hgo := hg o (target_mem os i o ho)
+      cases pred with
+      | some p =>
+        simp only
+        split
+        · rename_i t' he
+          refine allGood_append cfg os _ hg ?_
+          intro o' h; cases h
+          intro hf
+          simp only at hf
+          obtain ⟨hi, _⟩ := hgo hf
+          have hop : opOK cfg o.t (.whereP p) = true := by
+            simp only [opOKC, ho, hf] at hok; simpa using hok
+          obtain ⟨t1, e1, hi1⟩ := inv_step' cfg hfix o.t (.whereP p) hi hop
+          have : o.t.pwhere cfg (some p) cmp kws = o.t.pwhere cfg (some p) Option.none [] := rfl
+          rw [this] at he
+          simp only [stepL] at e1
+          rw [e1] at he; cases he
+          exact ⟨hi1, coh_none cfg _⟩
+        · exact allGood_append cfg os _ hg (by intro o h; cases h)
+      | none =>
+        simp only
+        split
+        · exact allGood_append cfg os _ hg (by intro o h; cases h)
+        · rename_i l hl
+          have hself : Good cfg { o with cache := some l } := by
+            intro hf
+            obtain ⟨hi, hc⟩ := hgo hf
+            rw [effLohis_of_coh cfg o.t o.cache hc] at hl
+            exact ⟨hi, coh_calc cfg o.t l hl⟩
+          have hset := allGood_set cfg os i (some { o with cache := some l }) hg (by intro o' h; cases h; exact hself)
+          split
+          · rename_i t' he
+            refine allGood_append cfg _ _ hset ?_
+            intro o' h; cases h
+            intro hf
+            simp only at hf
+            obtain ⟨hi, hc⟩ := hgo hf
+            rw [effLohis_of_coh cfg o.t o.cache hc] at hl
+            have hop : opOK cfg o.t (.whereK cmp kws) = true := by
+              simp only [opOKC, ho, hf] at hok; simpa using hok
+            obtain ⟨t1, e1, hi1⟩ := inv_step' cfg hfix o.t (.whereK cmp kws) hi hop
+            simp only [stepL] at e1
+            rw [pwhereWith_eq cfg o.t l cmp kws hl, he] at e1; cases e1
+            exact ⟨hi1, coh_none cfg _⟩
+          · exact allGood_append cfg _ _ hset (by intro o h; cases h)
+
+theorem multi_inv_reachable' (cfg : Cfg) (hfix : cfg.resortInsert = true) (os : List (Option CObj)) (ops : List TOp)
+    (hg : AllGood cfg os) (hok : OKC cfg os ops = true) : AllGood cfg (finalC cfg os ops) := by
+  induction ops generalizing os with
+  | nil => exact hg
+  | cons op rest ih =>
+    simp only [OKC, Bool.and_eq_true] at hok
+    exact ih _ (multi_inv_step' cfg hfix os op hg hok.1) hok.2
+
+theorem allGood_init (cfg : Cfg) (init : Init) (h : Inv init.table) : AllGood cfg (initC init) := by
+  intro o ho
+  simp [initC] at ho; subst ho
+  intro _; exact ⟨h, coh_none cfg _⟩
+
+/-- **indexed query = full scan for every live object of a run over several objects**: after any history
+of inserts / index / where / groupby / copy through any of the objects (views and copies of one storage,
+each with its own `_lohis` cache), every live object that no OTHER object has mutated under answers a
+keyword query — computed with its CACHED lohis — with exactly the rows of the plain filter. -/
+theorem where_every_live_object' (cfg : Cfg) (hfix : cfg.resortInsert = true) (init : Init) (ops : List TOp)
+    (hinv : Inv init.table) (hok : OKC cfg (initC init) ops = true)
+    (o : CObj) (hlive : some o ∈ finalC cfg (initC init) ops) (hfresh : o.fresh = true)
+    (pos : Option Op) (kws : List (Nat × Arg)) (R rs : List (List Cell)) (hw : whereOK cfg o.t pos kws = true)
+    (hR : o.t.rows = .ok R) (hspec : whereS { columns := o.t.columns, rows := R } (kws.map (condOf pos)) = .ok rs) :
+    ∃ l t', effLohis cfg o.t o.cache = .ok l ∧ o.t.pwhereWith cfg l pos kws = .ok t' ∧ t'.rows = .ok rs ∧
+      t'.columns = o.t.columns ∧ t'.indexes = o.t.indexes := by
+  obtain ⟨hi, hc⟩ := multi_inv_reachable' cfg hfix _ ops (allGood_init cfg init hinv) hok o hlive hfresh
+  obtain ⟨l, hl⟩ := calc_ok_of_inv cfg o.t hi
+  obtain ⟨t', a, b, c, d, _⟩ := whereK_step cfg o.t pos kws hi R rs hw hR hspec
+  refine ⟨l, t', ?_, ?_, b, c, d⟩
+  · rw [effLohis_of_coh cfg o.t o.cache hc]; exact hl
+  · rw [← pwhereWith_eq cfg o.t l pos kws hl]; exact a
+
+/-- queries through a coherent cache are the queries of the cache-free model (`Table.pwhere` / `Table.groupby`,
+the definitions every earlier theorem is about) -/
+theorem cached_query_eq' (cfg : Cfg) (t : Table) (c : Option Lohis) (hc : Coh cfg t c) (l : Lohis)
+    (hl : effLohis cfg t c = .ok l) (pos : Option Op) (kws : List (Nat × Arg)) (level : Nat) (select : Select) :
+    t.pwhereWith cfg l pos kws = t.pwhere cfg Option.none pos kws ∧ t.groupbyWith l level select = t.groupby cfg level select := by
+  rw [effLohis_of_coh cfg t c hc] at hl
+  exact ⟨(pwhereWith_eq cfg t l pos kws hl).symm, (groupbyWith_eq cfg t l level select hl).symm⟩
+
+
+/-! ## Phase 4: the operator table of `Table.where` / `Table._compare`, tied to the source
+
+`Generated/C17Ops.lean` is rewritten from the coba source on every run (`harness/props/c17.py: pre_build`,
+Python `ast`): the `Literal[...]` of `where(comparison=)`, the keys `_compare` unpacks from `{op: value}`,
+the operators the bisect condition of `where` excludes, and per `if comparison == "<op>"` block of `_compare`
+the `my_bisect_left/right` calls of its bisect branch in source order (`true` = right; `none` = no bisect
+branch), the comparison its scan branch applies to a cell, and whether that is guarded by `c is not None`. -/
+
+def Op.sym : Op → String
+  | .eq => "=" | .ne => "!=" | .lt => "<" | .le => "<=" | .gt => ">" | .ge => ">=" | .isin => "in" | .notin => "!in" | .mtch => "match"
+
+def Op.all : List Op := [.eq, .ne, .le, .lt, .gt, .ge, .mtch, .isin, .notin]
+
+/-- the model's operator table, in the order of the `if` blocks of `_compare`:
+(symbol, bisect calls (`compareBisect`), scan comparison (`compareScan`), `None` guard (`nn` in `compareScan`)) -/
+def opTable : List (String × Option (List Bool) × String × Bool) :=
+  [ (Op.sym .isin, some [false, true], "In", false), (Op.sym .notin, some [true, false], "NotIn", false),
+    (Op.sym .eq, some [false, true], "Eq", false), (Op.sym .ne, some [false, true], "NotEq", false),
+    (Op.sym .lt, some [false], "Lt", true), (Op.sym .le, some [true], "LtE", true),
+    (Op.sym .ge, some [false], "GtE", true), (Op.sym .gt, some [true], "Gt", true),
+    (Op.sym .mtch, Option.none, "Call", false) ]
+
+/-- the bisect calls the table lists for the four order comparisons are the ones `compareBisect` makes:
+`<` cuts at `my_bisect_left`, `<=` at `my_bisect_right`, `>=` at `my_bisect_left`, `>` at `my_bisect_right` -/
+theorem opTable_bisect_calls' (cfg : Cfg) (s : Seq) (lo hi : Nat) (v : Cell) :
+    compareBisect cfg s lo hi .lt (.scalar v) = (myBisectLeft cfg s v lo hi).map (fun l => [(lo, l)]) ∧
+    compareBisect cfg s lo hi .le (.scalar v) = (myBisectRight cfg s v lo hi).map (fun h => [(lo, h)]) ∧
+    compareBisect cfg s lo hi .ge (.scalar v) = (myBisectLeft cfg s v lo hi).map (fun l => [(l, hi)]) ∧
+    compareBisect cfg s lo hi .gt (.scalar v) = (myBisectRight cfg s v lo hi).map (fun h => [(h, hi)]) := by
+  refine ⟨?_, ?_, ?_, ?_⟩
+  · cases h : myBisectLeft cfg s v lo hi <;> simp [compareBisect, h, Except.map, bind, Except.bind, pure, Except.pure]
+  · cases h : myBisectRight cfg s v lo hi <;> simp [compareBisect, h, Except.map, bind, Except.bind, pure, Except.pure]
+  · cases h : myBisectLeft cfg s v lo hi <;> simp [compareBisect, h, Except.map, bind, Except.bind, pure, Except.pure]
+  · cases h : myBisectRight cfg s v lo hi <;> simp [compareBisect, h, Except.map, bind, Except.bind, pure, Except.pure]
+
+/-- the source's operator sets and per-operator table are the model's -/
+theorem ops_table_eq_source' :
+    Coba.Generated.C17.extracted = true ∧
+    Coba.Generated.C17.whereLiteral = Op.all.map Op.sym ∧
+    Coba.Generated.C17.unpackKeys = Op.all.map Op.sym ∧
+    Coba.Generated.C17.noBisectOps = [Op.sym .mtch] ∧
+    Coba.Generated.C17.compareTable = opTable := by decide
 
 end Coba.C17
